@@ -240,3 +240,13 @@ Print Assumptions source_tie_focus.
 Theorem executed_instance_is_F_ops : F64_ops = F_ops.
 Proof. exact C15_GenTie.F64_ops_is_F_ops. Qed.
 Print Assumptions executed_instance_is_F_ops.
+
+(* ---------- class structure of the current source: overrides and attribute hooks (proofs/ClassesTie.v) ---------- *)
+Require Import ClassesTie.
+Theorem C15_tie_class_numpy_body : over_numpy_body = Some exp_over_numpy_body.
+Proof. exact over_numpy_body_tie. Qed.
+Print Assumptions C15_tie_class_numpy_body.
+Theorem C15_tie_class_attr_hooks : Gen_Classes.attr_hooks = exp_attr_hooks.
+Proof. exact attr_hooks_tie. Qed.
+Print Assumptions C15_tie_class_attr_hooks.
+
